@@ -1,7 +1,7 @@
 // C10 — optimisers never end worse than they start, converge when convex, respect bounds
 // VF-VARIANT: san
 // VF-RULE: E2: every index of each stated configuration product is one complete optimiser run (init + optimize, executed twice) on a fresh optimiser and a fresh harness objective that records every point it is evaluated at; spaces "run:<optimiser>:n<dim>:<slice>" are products objective x start x constraint set x policy x tolerance x budget (x interval/direction variant for the 1-D optimisers), "bracket:*" are products objective x initial pair. A case is non-trivial when the run returned normally and moved away from its start.
-// VF-BOUND: dimensions 1..3 (quick) / 1..6 (thorough); quadratics c + (x-m)'Q(x-m)/2 with Q from a finite set of integer SPD matrices (diag with kappa in {1,10,100,1000}, [[2,+-1],[+-1,2]]*{1,100}, tridiagonal(2,-1), L L' with L unit lower 0/1) and m on {-1,0,1.5}^n, c in {0,1}; non-quadratics sum cosh, quartic+quadratic, log-sum-exp; starts on {-2,0.5,3}^n (full lattice for n<=2 quick / n<=3 thorough, 5 patterns above); constraints {none, box [-4,4]^n, box with the minimiser on a face}; policies keep/auto/ignore; tolerances {1e-4,1e-6,1e-8,1e-10}; budgets {10,50,5000}; three slices per optimiser and dimension (all objectives x tolerances unconstrained; constraint sets x policies; budgets) instead of the full product; "random" quadratics/starts replaced by these lattices
+// VF-BOUND: dimensions 1..3 (quick) / 1..6 (thorough); quadratics c + (x-m)'Q(x-m)/2 with Q from a finite set of integer SPD matrices (diag with kappa in {1,10,100,1000}, [[2,+-1],[+-1,2]]*{1,100}, tridiagonal(2,-1), L L' with L unit lower 0/1) and m on {-1,0,1.5}^n, c in {0,1}; non-quadratics sum cosh, quartic+quadratic, log-sum-exp; starts on {-2,0.5,3}^n (complete for n<=2, 5 patterns above; n=1 also -0.1, whose first simplex straddles the minimiser 0 symmetrically), minimiser lattice complete for n<=1 (quick) / n<=3 (thorough); constraints {none, box [-4,4]^n, box with the minimiser on a face}; policies keep/auto/ignore; tolerances {1e-4,1e-6,1e-8,1e-10}; budgets {10,50,5000}; three slices per optimiser and dimension (all objectives x tolerances unconstrained; constraint sets x policies; budgets) instead of the full product; "random" quadratics/starts replaced by these lattices
 // VF-LEVEL: exhaustive over the stated finite configuration spaces on the real optimiser classes: descent, returned-value consistency and feasibility of every recorded evaluation judged exactly (no tolerance beyond 4 ulp on descent), budget judged on the optimiser's own evaluation counter at every step, convergence judged against a worst-case bound derived from the stop rule actually used (derivations next to the code; vacuous bounds are counted separately), bracketing judged on re-evaluated values
 // VF-ASSUME: the harness objective (value, gradient, Hessian of the stated families) and its rounding bound gamma=(n^2+4)u are correct;; bpp::Parameter/ParameterList/IntervalConstraint/AbstractParametrizable behave as documented (C01/C02's subject);; convergence bounds: one iteration of each optimiser is modelled as documented at convBound() (for conjugate gradient with n>=2 the iteration is assumed at least as good as one steepest-descent line minimisation; for the downhill simplex no bound follows from its spread criterion and the loosest factor of the family is used);; IEEE double arithmetic without contraction
 // VF-TECHNIQUE: bounded-exhaustive configuration enumeration on the real optimisers with a recording objective and analytic reference (minimiser, spectrum) of integer quadratics
@@ -348,7 +348,9 @@ static Conv convBound(const Cfg& cf, const Run& r) {
       // direction m - start on a diagonal (or 1-D) quadratic is the exact Newton step: lambda = 1 gives f = c <= f(0) + 1e-4 slope, accepted at the first trial; start + (m - start) is exact on the dyadic lattice
       bool diagQ = true; for (int i = 0; i < n; ++i) for (int j = 0; j < n; ++j) if (i != j && s.q(i, j) != 0) diagQ = false;
       if (cf.var != 0 || !diagQ) { cv.why = "not a Newton direction"; return cv; }
-      cv.judged = true; cv.bound = 0; cv.why = "exact Newton step"; return cv;
+      // two roundings (m - start, start + 1 * dir), each <= u times a magnitude <= |start|+|m|
+      double mag = 0; for (int i = 0; i < n; ++i) mag = std::max(mag, std::fabs(cf.start[(size_t)i]) + std::fabs(s.m[(size_t)i]));
+      cv.judged = true; cv.bound = 4 * UR * mag * std::sqrt((double)n); cv.why = "exact Newton step"; return cv;
     }
     default: cv.why = "meta-optimiser: no bound derived"; return cv;
   }
@@ -358,8 +360,8 @@ static Conv convBound(const Cfg& cf, const Run& r) {
 static void judge(const Cfg& cf, vf::Case& c, bool sampleIt, bool twice) {
   Run r; r.trace = c.verbose; doRun(cf, r, c);
   if (c.verbose) { c.note(cf.describe()); for (size_t k = 0; k < r.hist.size(); ++k) c.note("step " + str(k + 1) + ": counter=" + str(r.counts[k]) + " x=" + vf::vstr(r.hist[k].x) + " f=" + num(r.hist[k].f) + (r.hist[k].dirs.empty() ? "" : " dirs=" + vf::vstr(r.hist[k].dirs))); c.note("true evaluations: " + str(r.obj->nEval) + (r.returned ? " returned " + num(r.ret) : " raised " + r.exc + ": " + r.excWhat)); }
-  std::string on = ON[cf.opt];
-  std::string cls = on + (cf.cons ? std::string(":") + CONS[cf.cons] + "-" + POL[cf.pol] : "");
+  std::string on = (cf.opt == META0 || cf.opt == META1 || cf.opt == META2) ? "MetaOptimizer" : ON[cf.opt];   // signature class: the optimiser class (the three meta configurations are one class)
+  std::string cls = on;
   std::string in = cf.describe();
   const Spec& s = cf.spec; int n = s.n; int np = r.obj->np;
   // time-independence / reproducibility: the same configuration on fresh objects gives bit-identical results (every 8th index)
@@ -384,7 +386,7 @@ static void judge(const Cfg& cf, vf::Case& c, bool sampleIt, bool twice) {
     std::string t = std::string("raised:") + CONS[cf.cons] + "-" + POL[cf.pol];
     c.tag(t);
     bool byDesign = (cf.cons != 0 && cf.pol == 0 && r.exc.find("ConstraintException") != std::string::npos);
-    if (!byDesign) c.fail("run|raised-exception|" + cls, in + ": " + r.exc + ": " + r.excWhat);
+    if (!byDesign) c.fail("run|raised-exception|" + on + ":" + (cf.cons ? POL[cf.pol] : "unconstrained"), in + ": " + r.exc + ": " + r.excWhat);
     return;
   }
   double f0 = reeval(cf, r, cf.opt == NBOD ? std::vector<double>(1, 0.0) : cf.start);
@@ -526,6 +528,7 @@ int main(int argc, char** argv) {
       std::vector<int> vars = {0};
       if (opt == BRENT || opt == BRENT_IN || opt == GOLDEN || opt == NBOD) vars = {0, 1};
       std::vector<std::vector<double>> starts = lattice(n, SV, capS);
+      if (n == 1) starts.push_back(std::vector<double>(1, -0.1));   // tie case: the first simplex (-0.1, 0.1) / interval straddles the minimiser 0 symmetrically
       std::string base = std::string("run:") + ON[opt] + ":n" + str(n) + ":";
       {  // slice 1: every objective x every tolerance, unconstrained, large budget
         Slice s; s.opt = opt; s.n = n; s.objs = objectives(n, 2, cap); s.starts = starts; s.cons = {0}; s.pols = {0}; s.tols = {0, 1, 2, 3}; s.buds = {BIG}; s.vars = vars;
